@@ -60,12 +60,17 @@ def sortByKey {α : Type} (key : α → Nat) (l : List α) : List α := l.foldl 
 
 def joinOrDash (xs : List String) : String := if xs.isEmpty then "-" else ",".intercalate xs
 
-def fmtSeg (entries : List Entry) (oth : List String) : String :=
-  let txs := entries.filterMap (fun e => match e with | .tx id _ t _ => some (id, t) | _ => none)
+/-- Bytes of the first transmission of a request (the reference every copy is compared with). -/
+def firstMsg (log : List Entry) (id : Nat) : Option Nat :=
+  log.findSome? (fun e => match e with | .tx i 0 _ m => if i == id then some m else none | _ => none)
+
+def fmtSeg (log : List Entry) (entries : List Entry) (oth : List String) : String :=
+  let txs := entries.filterMap (fun e => match e with | .tx id _ t m => some (id, t, m) | _ => none)
   let rets := entries.filterMap (fun e => match e with | .ret id r t => some (id, r, t) | _ => none)
-  let txs := sortByKey (fun (p : Nat × Nat) => p.1) txs
+  let txs := sortByKey (fun (p : Nat × Nat × Nat) => p.1) txs
   let rets := sortByKey (fun (p : Nat × Res × Nat) => p.1) rets
-  s!"tx={joinOrDash (txs.map (fun p => s!"{p.1}.{p.2}.="))} ret={joinOrDash (rets.map (fun p => s!"{p.1}.{fmtRes p.2.1}.{p.2.2}"))} oth={joinOrDash oth}"
+  let mark := fun (p : Nat × Nat × Nat) => if firstMsg log p.1 == some p.2.2 then "=" else "!"
+  s!"tx={joinOrDash (txs.map (fun p => s!"{p.1}.{p.2.1}.{mark p}"))} ret={joinOrDash (rets.map (fun p => s!"{p.1}.{fmtRes p.2.1}.{p.2.2}"))} oth={joinOrDash oth}"
 
 /-- The request has not been transmitted (it waits for its NSTART slot, or ended before getting one): the harness injects no response for it
     (a response cannot precede the request; its message ID is not even known). -/
@@ -97,7 +102,7 @@ def model (line : String) : String :=
       let s := acc.1
       let s' := Model.Retransmit.runFrom P s (opEvents P s op)
       let added := s'.log.take (s'.log.length - s.log.length)
-      (s', acc.2 ++ [fmtSeg added (opOther s op)])) (Model.Retransmit.init, ["tx=- ret=- oth=-"])
+      (s', acc.2 ++ [fmtSeg s'.log added (opOther s op)])) (Model.Retransmit.init, ["tx=- ret=- oth=-"])
     " | ".intercalate segs
   | _ => "bad-op"
 
